@@ -51,3 +51,10 @@ Definition batch_split_tensor (x : shape) (n : N) : option (list shape) :=
   if negb (wrap32 (span * n) =? total) then None else
   mapM (fun i => batch_slice x (wrap32 (i * span)) (wrap32 ((i + 1) * span))) (indices n).
 
+
+(* the guard that the Node functions split / batch::split evaluate BEFORE constructing the
+   operator (node_funcs.cc, rv_node_funcs): n == 0 || total % n != 0 *)
+Definition node_split_guard (x : shape) (dim n : N) : bool :=
+  (n =? 0) || negb (get x dim mod n =? 0).
+Definition node_batch_split_guard (x : shape) (n : N) : bool :=
+  (n =? 0) || negb (batch x mod n =? 0).
